@@ -14,8 +14,8 @@ import (
 // created on demand and nothing depends on them existing.
 func acquireSlot() {
 	n, _ := strconv.Atoi(os.Getenv("PKVERIFY_SLOTS"))
-	if n <= 0 {
-		return
+	if n <= 0 || n > 6 {
+		n = 6 // default and cap: each process holds 3-4 GB and loads with ~4 threads
 	}
 	dir := os.TempDir()
 	for {
